@@ -41,6 +41,19 @@ FIXED = {
     # null propagating out of a deferred fragment's object
     "defer-null-propagation": fixed('query Q { a ... @defer(label:"D") { onn { nx y } b } }',
                                     {"D": ""}, force={"onn": ("value", S), "onn/nx": ("null", G), "a": ("value", S)}),
+    # a deferred fragment inside list items with a nested defer below a sub-object, beside a top-level defer
+    "defer-list-nested": fixed('query Q { ... @defer(label:"T") { a } ol { ... @defer(label:"D") { o { ... @defer(label:"E") { y } } } } }',
+                               {"T": "", "D": "", "E": "D"},
+                               force={"a": ("value", G), "ol": ("value", S), "ol/0/o": ("value", G), "ol/1/o": ("value", G),
+                                      "ol/0/o/y": ("value", S), "ol/1/o/y": ("value", S)},
+                               lists={"ol": (2, False, None)}),
+    # the source of a stream raises while an earlier item is still being completed
+    "stream-fails-item-pending": fixed('query Q { ol @stream(initialCount:0, label:"S") { x } }', {"S": ""},
+                                       force={"ol": ("value", S), "ol/0/x": ("value", G), "ol/1/x": ("value", S)}, lists={"ol": (2, True, 2)}),
+    # a field shared by a shallow and a deeper fragment; the deeper fragment fails through another field
+    "shared-field-deeper-fails": fixed('query Q { ... @defer(label:"A") { o { x slow: y } } o { y2: y ... @defer(label:"F") { x nx } } }',
+                                       {"A": "", "F": ""},
+                                       force={"o": ("value", S), "o/x": ("value", G), "o/slow": ("value", G), "o/y2": ("value", S), "o/nx": ("null", G)}),
 }
 
 
@@ -65,9 +78,11 @@ def explore(req, early, depth, stops=False, with_signal=False, max_runs=200000):
                 run.drain()      # past the depth bound: finish the run deterministically (first enabled action)
             if stopped:
                 run.after_stop()
+            stalled = (not stops and not run.ended and not run.closed and not run.aborted and not run.enabled() and not run.initial_is_plain
+                       and run.res is not None)
             o = run.finish()
             out.append({"sched": [list(a) for a in prefix], "payloads": run.payloads, "ended": run.ended and not run.closed,
-                        "plain": run.initial_is_plain, "obs": o})
+                        "plain": run.initial_is_plain, "obs": o, "stalled": stalled})
             return
         run.finish()
         for a in acts:
@@ -87,14 +102,17 @@ def random_run(req, early, rng, stops=False, with_signal=False):
         # bias: sometimes hold pulls back so that events accumulate
         sched.append(list(a))
         run.do(a)
+    stalled = not run.ended and not run.enabled() and not run.initial_is_plain and run.res is not None
     o = run.finish()
-    return {"sched": sched, "payloads": run.payloads, "ended": run.ended, "plain": run.initial_is_plain, "obs": o}
+    return {"sched": sched, "payloads": run.payloads, "ended": run.ended, "plain": run.initial_is_plain, "obs": o, "stalled": stalled}
 
 
 def to_record(req, r, refs):
     ref, refnp = refs
     refclean = req["noprop"] or not ref.errors
-    return increq.trace_record(req, r["payloads"], r["ended"], refnp, refclean)
+    rec = increq.trace_record(req, r["payloads"], r["ended"], refnp, refclean)
+    rec["stalled"] = bool(r.get("stalled"))
+    return rec
 
 
 def references(req):
